@@ -265,7 +265,7 @@ def run(report):
     switches = sorted(open_switches('C02'))
     for s in switches:
         report.exclusions[s] = "open finding: shape stripped from corpus modules / not generated"
-    items = [(_pool_shard, it) for it in sorted(pool.all_programs().items())]
+    items = [(_pool_shard, it) for it in sorted(pool.all_programs().items()) + sorted(pool.VERSION_SENSITIVE.items())]
     files = c03.stdlib_files()
     if files:
         if quick:
